@@ -240,7 +240,12 @@ class TTGlyphPen(_TTGlyphBasePen, LoggingPen):
             startPt = 0
             if self.endPts:
                 startPt = self.endPts[-1] + 1
-            if self.points[startPt] == self.points[endPt]:
+            # (only an on-curve end point duplicates the start point; in a
+            # contour made of off-curve points only, every point counts)
+            if (
+                self.points[startPt] == self.points[endPt]
+                and self.types[endPt] == flagOnCurve
+            ):
                 self._popPoint()
                 endPt -= 1
 
@@ -304,6 +309,9 @@ class TTGlyphPointPen(_TTGlyphBasePen, LogMixin, AbstractPointPen):
                 while flags[j] == 0:
                     flags[j] = flagCubic
                     j -= 1
+                    if j < contourStart:
+                        # wrap around within the current contour
+                        j = len(flags) - 1
                 flags[i] = flagOnCurve
 
     def addPoint(
